@@ -23,6 +23,18 @@ def load_prop(prop: str):
     return importlib.import_module(f"props.{prop.lower()}")
 
 
+def make_scenario(mod, prop, seed, i, tier) -> dict:
+    """Scenario number i of (property, VERIF_SEED): a pure function of its arguments."""
+    rng = rng_for(prop, seed, i)
+    sc = mod.generate(rng, tier)
+    if getattr(mod, "VARY_ARGFORM", False):  # drawn last: the rest of the scenario is what it was before
+        from .core import ARGFORMS
+
+        sc["argform"] = rng.choice(ARGFORMS)
+    sc.update({"property": prop, "seed": seed, "run": i, "format": 1})
+    return sc
+
+
 def main(argv) -> int:
     prop, seed, tier = argv[0], int(argv[1]), argv[2]
     stripe, nstripes, count, budget = int(argv[3]), int(argv[4]), int(argv[5]), float(argv[6])
@@ -32,8 +44,12 @@ def main(argv) -> int:
     hard = float(os.environ.get("VERIF_WORKER_HARD_TIMEOUT", "0")) or (budget * 2 + 600 if budget else 1500)
     faulthandler.dump_traceback_later(hard, exit=True)
     mod = load_prop(prop)
+    warm_failed = None
     if hasattr(mod, "warm"):
-        mod.warm()
+        try:
+            mod.warm()
+        except Exception as e:  # noqa: BLE001 - the library refusing the warm-up calls is judged inside the runs, not here
+            warm_failed = f"{type(e).__name__}: {e}"
     known = F.load()
     t0 = time.time()  # wall clock used ONLY for the budget / evidence, never inside a run
     res = {
@@ -41,6 +57,8 @@ def main(argv) -> int:
         "violations": [], "known": {}, "errors": [], "probes": {}, "faults": {}, "observations": {},
         "io_steps": 0, "sched_steps": 0, "samples": [], "first_digests": {}, "indices": [0, 0],
     }
+    if warm_failed:
+        res["observations"]["warm-up-raised:" + warm_failed[:120]] = 1
     digs, sigs, ntdigs = [], [], []
     minimised_classes = {}
     det_n = int(os.environ.get("VERIF_DET_N", "48"))
@@ -54,15 +72,9 @@ def main(argv) -> int:
             break
         if det_only and i >= det_n:
             break
-        rng = rng_for(prop, seed, i)
-        sc = mod.generate(rng, tier)
-        if getattr(mod, "VARY_ARGFORM", False):  # drawn last: the rest of the scenario is what it was before
-            from .core import ARGFORMS
-
-            sc["argform"] = rng.choice(ARGFORMS)
-        sc.update({"property": prop, "seed": seed, "run": i, "format": 1})
+        sc = make_scenario(mod, prop, seed, i, tier)
         with open(curfile, "w") as cf:  # if the process dies inside the library, the driver knows where
-            cf.write(jdump(sc))
+            cf.write(jdump({**sc, "_worker": {"stripe": stripe, "nstripes": nstripes, "tier": tier}}))
         out = run_scenario(mod, sc)
         res["runs"] += 1
         d64 = int(out.digest[:16], 16)
